@@ -219,6 +219,33 @@ class Interp(object):
                     c._parent = n
         return self.flow.sym(expr, node or self.cfg.entry)
 
+    def _elim(self, cons, atoms):
+        """Project atoms out, after materialising the axioms of the composite
+        ones (so that e.g. b = min(a, r) still leaves b <= r behind when
+        min(a, r) itself is eliminated)."""
+        atoms = sorted(atoms)
+        comp = [a for a in atoms if a in self.flow.atom_info]
+        if comp:
+            ax, splits = self.flow.axioms([Poly.atom(a) for a in comp],
+                                          self.nonneg)
+            cons = self._absorb(cons + ax, splits)
+        return eliminate(cons, atoms)
+
+    def _absorb(self, cons, splits, pool=()):
+        """Add what every feasible alternative of each case split agrees on
+        (a weak join of the alternatives)."""
+        for alts in splits:
+            feas = [alt for alt in alts if self._feasible(cons + alt)]
+            if len(feas) == 1:
+                cons = cons + feas[0]
+            elif feas:
+                cand = dedupe([c for alt in feas for c in alt] + list(pool))
+                keep = [c for c in cand
+                        if all(self.entails_state(cons + alt, c)
+                               for alt in feas)]
+                cons = cons + keep
+        return cons
+
     def _kill(self, cons, var):
         atoms = set()
         for c in cons:
@@ -227,7 +254,7 @@ class Interp(object):
                     atoms.add(a)
         if not atoms:
             return cons
-        return eliminate(cons, sorted(atoms))
+        return self._elim(cons, atoms)
 
     def _assign(self, cons, var, poly):
         """cons after  var := poly  (poly evaluated in the pre-state)."""
@@ -251,7 +278,7 @@ class Interp(object):
                     if a != var and _depends(self.flow, a, var):
                         comp.add(a)
             if comp:
-                cons = eliminate(cons, sorted(comp))
+                cons = self._elim(cons, comp)
             old = (V - rest) * (1 / coef)
             return [Con(c.p.subst({var: old}), c.strict, c.why)
                     for c in cons]
@@ -335,17 +362,12 @@ class Interp(object):
         flow = self.flow
         newlen = flow._composite("len(%r)" % (poly,), [poly], ("len", poly))
         ax, splits = flow.axioms([newlen] + [c.p for c in cons], self.nonneg)
-        extra = list(ax)
-        base = cons + ax
-        for alts in splits:
-            feas = [alt for alt in alts if self._feasible(base + alt)]
-            if len(feas) == 1:
-                extra += feas[0]
-                base = base + feas[0]
         tmp = "len(%s)'" % var
         flow.atom_vars[tmp] = set()
         T = Poly.atom(tmp)
-        cons = cons + extra + [le(T, newlen), le(newlen, T)]
+        cons = self._absorb(cons + ax, splits,
+                            pool=[le(1, newlen), le(0, newlen)])
+        cons = cons + [le(T, newlen), le(newlen, T)]
         cons = self._assign(cons, var, poly if self._numeric(poly) and not
                             any(_depends(flow, a, var)
                                 for a in poly.atoms()) else None)
